@@ -140,15 +140,18 @@ func (r *reader) ConsumeByKey(key []byte, keyHash []byte, offset, maxCount int64
 		return nextOffset, nil, nil
 	}
 
+	// take the next offset before looking at the keys: a message published in
+	// between has at least this offset, so the next consume will see it
+	nextOffset, err := ix.GetNextOffset()
+	if err != nil {
+		return OffsetInvalid, nil, err
+	}
+
 	positions, err := ix.Keys(keyHash)
 	switch err {
 	case nil:
 		break
 	case index.ErrKeyNotFound:
-		nextOffset, err := ix.GetNextOffset()
-		if err != nil {
-			return OffsetInvalid, nil, err
-		}
 		return nextOffset, nil, nil
 	default:
 		return OffsetInvalid, nil, err
@@ -178,10 +181,6 @@ func (r *reader) ConsumeByKey(key []byte, keyHash []byte, offset, maxCount int64
 	}
 
 	if len(msgs) == 0 {
-		nextOffset, err := ix.GetNextOffset()
-		if err != nil {
-			return OffsetInvalid, nil, err
-		}
 		return nextOffset, nil, nil
 	}
 
